@@ -42,6 +42,11 @@ def as_seq(v, kind=None):
     raise Unsupported('not a sequence: %r' % (v,))
 
 
+def snap(v, kind=None):
+    """snapshot copy as a Seq (derived sequences must not observe later in-place mutation)"""
+    return as_seq(v, kind).copy()
+
+
 def seq_len(v):
     if isinstance(v, (list, tuple, dict, str)):
         return len(v)
@@ -203,12 +208,14 @@ def fancy_index(ip, o, ids):
         bad = z3.And(j >= 0, j < ids.length, z3.Not(ok))
         if ip.may_exist(bad, 'fancy-oob'):
             raise PyRaise(ExcVal('IndexError', ('index out of bounds',)))
-        ip.add_universal(ids, lambda i: norm_index(ids.fn(i), n)[1])
+        isnap = ids.copy()
+        ip.add_universal(ids, lambda i: norm_index(isnap.fn(i), n)[1], isnap.length)
+    isnap2, osnap = ids.copy(), o.copy()
 
     def fn(i):
-        ipx, _ = norm_index(ids.fn(i), n)
-        return o.fn(ipx)
-    return Seq(ids.length, fn, 'ndarray')
+        ipx, _ = norm_index(isnap2.fn(i), n)
+        return osnap.fn(ipx)
+    return Seq(isnap2.length, fn, 'ndarray')
 
 
 def setitem(ip, o, idx, v):
@@ -317,7 +324,7 @@ def binop(ip, op, a, b):
         return a + b
     if isinstance(op, ast.Add) and (isinstance(a, (list, Seq)) and isinstance(b, (list, Seq))) and \
             not (isinstance(a, Seq) and a.kind == 'ndarray') and not (isinstance(b, Seq) and b.kind == 'ndarray'):
-        sa, sb = as_seq(a), as_seq(b)
+        sa, sb = snap(a), snap(b)
         la = sa.length
         return Seq(z3.simplify(sa.length + sb.length), lambda i: ite(i < la, sa.fn(i), sb.fn(i - la)), 'list')
     if isinstance(op, ast.Mult) and isinstance(a, (list, tuple)) and (is_int(b)):
@@ -332,6 +339,10 @@ def binop(ip, op, a, b):
         return binop(ip, op, b, a)
     # element-wise ndarray arithmetic
     if (isinstance(a, Seq) and a.kind in ('ndarray', 'range')) or (isinstance(b, Seq) and b.kind in ('ndarray', 'range')):
+        if isinstance(a, Seq):
+            a = a.copy()
+        if isinstance(b, Seq):
+            b = b.copy()
         if isinstance(a, Seq) and isinstance(b, Seq):
             return Seq(a.length, lambda i: binop(ip, op, a.fn(i), b.fn(i)), 'ndarray')
         if isinstance(a, Seq):
@@ -436,6 +447,10 @@ def compare(ip, op, a, b):
     if isinstance(a, InfVal) or isinstance(b, InfVal):
         return _cmp_inf(op, a, b)
     if (isinstance(a, Seq) and a.kind == 'ndarray') or (isinstance(b, Seq) and b.kind == 'ndarray'):
+        if isinstance(a, Seq):
+            a = a.copy()
+        if isinstance(b, Seq):
+            b = b.copy()
         if isinstance(a, Seq) and isinstance(b, Seq):
             return Seq(a.length, lambda i: compare(ip, op, a.fn(i), b.fn(i)), 'ndarray')
         if isinstance(a, Seq):
@@ -573,18 +588,32 @@ def _list_method(ip, o, attr):
     I = _interp_types()
 
     def append(ip_, args, kw):
+        ip_.note_mutation(o)
         o.append(args[0])
 
     def insert(ip_, args, kw):
+        ip_.note_mutation(o)
         ci = concrete_int(args[0])
         if ci is None:
-            raise Unsupported('list.insert at symbolic index on concrete list')
+            n, v = len(o), args[1]
+            k = to_int(args[0])
+            k = z3.If(k < 0, z3.If(k + n < 0, 0, k + n), z3.If(k > n, n, k))
+            old = list(o)
+            new = []
+            for j in range(n + 1):
+                before = old[j] if j < n else v
+                after = old[j - 1] if j >= 1 else v
+                new.append(ite(j < k, before, ite(k == j, v, after)))
+            o[:] = new
+            return
         o.insert(ci, args[1])
 
     def extend(ip_, args, kw):
+        ip_.note_mutation(o)
         o.extend(ip_.iter_concrete(args[0]))
 
     def pop(ip_, args, kw):
+        ip_.note_mutation(o)
         if not o:
             raise PyRaise(ExcVal('IndexError', ('pop from empty list',)))
         if args:
@@ -598,6 +627,7 @@ def _list_method(ip, o, attr):
         return list(o)
 
     def reverse(ip_, args, kw):
+        ip_.note_mutation(o)
         o.reverse()
 
     def index(ip_, args, kw):
@@ -613,11 +643,13 @@ def _seq_method(ip, o, attr):
     I = _interp_types()
 
     def append(ip_, args, kw):
+        ip_.note_mutation(o)
         n, old, v = o.length, o.fn, args[0]
         o.fn = lambda i: ite(i == n, v, old(i))
         o.length = z3.simplify(n + 1)
 
     def insert(ip_, args, kw):
+        ip_.note_mutation(o)
         n, old, v = o.length, o.fn, args[1]
         k = to_int(args[0])
         # python clamps the insertion index
@@ -663,25 +695,28 @@ def seq_extreme(ip, s, which):
         return m
     if not ip.decide(s.length > 0, 'extreme-nonempty'):
         raise PyRaise(ExcVal('ValueError', ('zero-size array',)))
-    probe = s.fn(z3.IntVal(0))
+    snap = s.copy()
+    probe = snap.fn(z3.IntVal(0))
     m = fresh_int('m') if is_int(probe) else fresh_real('m')
     j = fresh_int('mj')
-    ip.add_pc(z3.And(j >= 0, j < s.length, s.fn(j) == m))
-    fact = (lambda i: s.fn(i) <= m) if which == 'max' else (lambda i: s.fn(i) >= m)
-    ip.add_universal(s, fact)
-    ip.extreme_facts.append((s, m, which))
+    ip.add_pc(z3.And(j >= 0, j < snap.length, snap.fn(j) == m))
+    fact = (lambda i: snap.fn(i) <= m) if which == 'max' else (lambda i: snap.fn(i) >= m)
+    ip.add_universal(s, fact, snap.length)
+    ip.extreme_facts.append((snap, m, which))
     return m
 
 
 def seq_any(ip, s, negate=False):
     """np.any over a Bool sequence: fork on a fresh witness."""
     j = fresh_int('anyj')
-    el = to_z3(s.fn(j))
+    snap = s.copy()
+    el = to_z3(snap.fn(j))
     cond = z3.Not(el) if negate else el
-    wit = z3.And(j >= 0, j < s.length, cond)
+    wit = z3.And(j >= 0, j < snap.length, cond)
     if ip.may_exist(wit, 'any'):
         return True
-    ip.add_universal(s, (lambda i: to_z3(s.fn(i))) if negate else (lambda i: z3.Not(to_z3(s.fn(i)))))
+    ip.add_universal(s, (lambda i: to_z3(snap.fn(i))) if negate else (lambda i: z3.Not(to_z3(snap.fn(i)))),
+                     snap.length)
     return False
 
 
@@ -784,7 +819,9 @@ def getattr_(ip, o, attr):
             if r is not None:
                 return r[0]
         if attr in OPAQUE_VALUE_ATTRS:
-            return uf('attr_' + attr, o)
+            r = uf('attr_' + attr, o)
+            ip.add_pc(r != NONE)       # library attribute values are never None
+            return r
         return I.Builtin('opaque.' + attr, lambda ip_, a, k, o=o, attr=attr: opaque_method(ip_, o, attr, a, k))
     if is_real(o) or is_int(o):
         if attr == 'real':
@@ -1035,7 +1072,7 @@ def b_zip(ip, args, kw):
         n = min(conc)
         seqs = [as_seq(a) for a in args]
         return [tuple(s.fn(z3.IntVal(k)) for s in seqs) for k in range(n)]
-    seqs = [as_seq(a) for a in args]
+    seqs = [snap(a) for a in args]
     n = seqs[0].length
     for s in seqs[1:]:
         n = z3.If(s.length < n, s.length, n)
@@ -1047,7 +1084,7 @@ def b_enumerate(ip, args, kw):
     v = args[0]
     if isinstance(v, (list, tuple)):
         return [(start + k, x) for k, x in enumerate(v)]
-    s = as_seq(v)
+    s = snap(v)
     n = concrete_int(s.length)
     if n is not None and n <= 64:
         return [(start + k, s.fn(z3.IntVal(k))) for k in range(n)]
@@ -1058,7 +1095,7 @@ def b_reversed(ip, args, kw):
     v = args[0]
     if isinstance(v, (list, tuple)):
         return list(reversed(v))
-    s = as_seq(v)
+    s = snap(v)
     n = s.length
     return Seq(n, lambda i: s.fn(n - 1 - i), 'list')
 
@@ -1230,7 +1267,9 @@ def np_array(ip, args, kw):
         hook = ip.registry.np_array_opaque if ip.registry else None
         if hook is not None:
             return hook(ip, v, kw)
-        return uf('np_array', v)
+        r = uf('np_array', v)
+        ip.add_pc(r != NONE)
+        return r
     if is_num(v):
         return v
     if isinstance(v, Cx):
@@ -1259,7 +1298,7 @@ def np_max(ip, args, kw):
 
 def np_append(ip, args, kw):
     a, x = args
-    s = as_seq(a)
+    s = snap(a)
     n = s.length
     return Seq(z3.simplify(n + 1), lambda i: ite(i == n, x, s.fn(i)), 'ndarray')
 
@@ -1313,10 +1352,12 @@ def bisect_right(ip, args, kw):
     all(e <= x for e in a[:k]) and all(e > x for e in a[k:]); requires a sorted."""
     a, x = args[0], args[1]
     s = as_seq(a)
+    snap = s.copy()
     k = fresh_int('bis')
-    ip.add_pc(z3.And(k >= 0, k <= s.length))
-    ip.add_universal(s, lambda i: z3.And(z3.Implies(i < k, s.fn(i) <= x), z3.Implies(i >= k, s.fn(i) > x)))
-    ip.ghost.setdefault('bisect', []).append((s, x, k))
+    ip.add_pc(z3.And(k >= 0, k <= snap.length))
+    ip.add_universal(s, lambda i: z3.And(z3.Implies(i < k, snap.fn(i) <= x), z3.Implies(i >= k, snap.fn(i) > x)),
+                     snap.length)
+    ip.ghost.setdefault('bisect', []).append((snap, x, k))
     return k
 
 
